@@ -100,7 +100,8 @@ pub fn fault_point(name: &str) {
         let n = w.fp_counter;
         w.fp_counter += 1;
         *w.fp_names_seen.entry(name.to_string()).or_insert(0) += 1;
-        if !w.faults_enabled {
+        if !w.faults_enabled || std::thread::panicking() {
+            // never inject while unwinding (a second panic would abort by Rust's own rules, not by the library's doing)
             return None;
         }
         match w.panics.get(&n).copied() {
